@@ -273,6 +273,20 @@ def objects_model(work, rep: Report) -> None:
                         break
             asks.append((c, o1, o2, w1, w2, b.ask(f"F0 obeq {w1} {w2}")))
     b.run()
+    import copy
+    import pickle
+    for c, o1, o2, w1, w2, i in asks[::3]:
+        # copies are equal to their originals (structural equality does not care how an object came about)
+        for how, mk in (("copy.copy", copy.copy), ("copy.deepcopy", copy.deepcopy), ("pickle", lambda o: pickle.loads(pickle.dumps(o)))):
+            rep.evaluations += 1
+            r = call(lambda: (lambda d: (d == o1, o1 == d, hash(d) == hash(o1), repr(d) == repr(o1), type(d) is type(o1)))(mk(o1)), timeout=20)
+            rep.count("copies", how)
+            if r[0] == "err" and r[1] in ("recursion", "timeout", "overflow"):
+                continue
+            if r != ("ok", (True, True, True, True, True)):
+                rep.violation(f"{how} of a {type(o1).__name__} is not equal to its original (==, reversed ==, same hash, same repr, same class) = {r!r}",
+                              dict(c, objects=[w1[:200]], how=how))
+                break
     for c, o1, o2, w1, w2, i in asks:
         rep.evaluations += 1
         got = call(lambda: (o1 == o2, o2 == o1, o1 != o2, hash(o1) == hash(o2)))
